@@ -866,6 +866,8 @@ package scipipe
 //@   ensures direct-upstream-listed: forall q ref :: directUp(q, proc) ==> listed(procs, q)
 //@   ensures closed-under-upstream: forall k string, q ref :: k in procs && directUp(q, procs[k]) ==> listed(procs, q)
 //@   ensures only-upstream: forall k string :: k in procs ==> directUp(procs[k], proc) || (exists k2 string :: k2 in procs && directUp(procs[k], procs[k2]))
+//@   ensures closed-q: forall q1 ref, q ref :: listed(procs, q1) && directUp(q, q1) ==> listed(procs, q)
+//@   ensures only-upstream-q: forall q ref :: listed(procs, q) ==> directUp(q, proc) || (exists q2 ref :: listed(procs, q2) && directUp(q, q2))
 //@   loop 0 invariant fresh: fresh(procs) && procs != nil
 //@   loop 0 invariant vis: forall i string :: $visited[i] ==> i in inPortsOf(proc)
 //@   loop 0 invariant keyed: forall k string :: k in procs ==> procs[k] != nil && procName(procs[k]) == k
@@ -1040,12 +1042,12 @@ package scipipe
 //@   modifies *
 //@   atcall (*Workflow).runProcs targets-included: forall j int :: 0 <= j && j < len(finalProcs) ==> listed($arg1, finalProcs[j])
 //@   atcall (*Workflow).runProcs upstream-included: forall j int, q ref :: 0 <= j && j < len(finalProcs) && directUp(q, finalProcs[j]) ==> listed($arg1, q)
-//@   atcall (*Workflow).runProcs closed-under-upstream: forall k string, q ref :: k in $arg1 && directUp(q, $arg1[k]) ==> listed($arg1, q)
+//@   atcall (*Workflow).runProcs closed-under-upstream: forall q1 ref, q ref :: listed($arg1, q1) && directUp(q, q1) ==> listed($arg1, q)
 //@   atcall (*Workflow).runProcs nothing-else: forall q ref :: listed($arg1, q) ==> (exists j int :: 0 <= j && j < len(finalProcs) && q == finalProcs[j]) || (exists q2 ref :: listed($arg1, q2) && directUp(q, q2))
 //@   loop 0 invariant range: 0 <= $i && $i <= len(finalProcs)
 //@   loop 0 invariant fresh: fresh(procsToRun) && procsToRun != nil
 //@   loop 0 invariant keyed: forall k string :: k in procsToRun ==> procsToRun[k] != nil && procName(procsToRun[k]) == k
 //@   loop 0 invariant targets: forall j int :: 0 <= j && j < $i ==> listed(procsToRun, finalProcs[j])
 //@   loop 0 invariant upstream: forall j int, q ref :: 0 <= j && j < $i && directUp(q, finalProcs[j]) ==> listed(procsToRun, q)
-//@   loop 0 invariant closed: forall k string, q ref :: k in procsToRun && directUp(q, procsToRun[k]) ==> listed(procsToRun, q)
+//@   loop 0 invariant closed: forall q1 ref, q ref :: listed(procsToRun, q1) && directUp(q, q1) ==> listed(procsToRun, q)
 //@   loop 0 invariant nothing-else: forall q ref :: listed(procsToRun, q) ==> (exists j int :: 0 <= j && j < $i && q == finalProcs[j]) || (exists q2 ref :: listed(procsToRun, q2) && directUp(q, q2))
